@@ -10,11 +10,11 @@ Property theorems only.  Two models:
 Both are the executable objects the correspondence runs use (`drv_c09`).
 
 What is NOT a theorem here (compared only, see checks/c09.py and `DoraModel/Wait/MtxCheck.lean`): the
-no-lost-wake-up invariants J (mutex) and S (signal) of DESIGN A.3 and the queue/flag consistency Q are
-evaluated on every model state reached while accepting the traces of the real code, but their inductive proofs
-are not done (a theorem `no_lost_wakeup` for the mutex is therefore absent).  Proved: `mutual_exclusion`,
-`lock_word_free_iff`, `join_after_stop`, `notify_without_waiter_no_effect`, and W for the condition
-(`condition_waiters_cover_queue`).  Atomic exchange /
+no-lost-wake-up invariant J for the MUTEX of DESIGN A.3 and the queue/flag consistency Q are evaluated on every
+model state reached while accepting the traces of the real code, but their inductive proofs are not done (a
+theorem `no_lost_wakeup` for the mutex is therefore absent).  Proved: `mutual_exclusion`, `lock_word_free_iff`,
+`join_after_stop`, `notify_without_waiter_no_effect`, W for the condition (`condition_waiters_cover_queue`) and
+S (`no_lost_signal`).  Atomic exchange /
 compare-exchange / fetch-add are single steps of the model by construction (their indivisibility in compiled
 code rests on C07's `lock`-prefixed encodings).
 -/
@@ -26,27 +26,22 @@ section hmap
 open Dora.Wait.Hmap
 
 /-- "…also when collections move the mutex and condition objects while threads are queued on them" needs the
-wait table to be a map from object address to queue.  `hmap_refines` as planned in DESIGN §7 reads:
-
-    theorem hmap_refines : Inv ep m → Repr m a → 1 < k →
-      (get / insert / remove return what `a` returns) ∧ Inv ep m'        -- Inv := WInv ∧ HasEmpty
-
-It is FALSE for the code as it is: `insert` does not preserve `HasEmpty` (`hmap_inv_not_preserved` below).
-What holds: under the invariant `WInv` the code does preserve, and PROVIDED the table still has an EMPTY slot
-(`live + tombstones < capacity`, or it is the fresh table of capacity 0), every operation terminates, returns
-what the abstract map `a : Addr → Option Val` returns, and yields a table representing the updated abstract
-map that again satisfies `WInv`; `get` and `remove` also keep an EMPTY slot.  Missing for the full statement:
-`m'.entries + tombstones m' < m'.capacity` after `insert` — `overflow()` would have to count tombstones. -/
-theorem hmap_refines_partial {ep : Nat} {m : Map} {a : Nat → Option Nat} (hI : WInv ep m) (hR : Repr m a)
-    (hroom : m.capacity = 0 ∨ m.entries + tombstones m < m.capacity) {k : Nat} (hk : 1 < k) :
-    (∃ m', get m ep k = .ok (a k, m') ∧ WInv ep m' ∧ Repr m' a ∧ (m'.capacity = 0 ∨ HasEmpty m')) ∧
+wait table to be a map from object address to queue.  `WInv` is the invariant (no duplicate keys, `entries` and
+`deleted` are the numbers of live slots and of tombstones, every live key is reachable from its home slot
+through non-empty slots, capacity a power of two ≥ 8, and `entries + deleted ≤ ¾ capacity` — tombstones count
+towards the load factor since /repo 527dccb30).  Under `WInv`:
+* a table of capacity > 0 has an EMPTY slot, which is why the three unbounded probe loops terminate;
+* `get`, `insert`, `remove` terminate (`.ok`), return what the abstract map `a : Addr → Option Val` returns,
+  yield a table that represents the updated abstract map, and PRESERVE `WInv`.
+(`remove` on the never-used table of capacity 0 computes `hash & (0 - 1)` and panics in the real code too;
+`WaitLists` cannot reach it: `wakeup` does a `get` first and `wakeup_all` needs an earlier `enqueue`.) -/
+theorem hmap_refines {ep : Nat} {m : Map} {a : Nat → Option Nat} (hI : WInv ep m) (hR : Repr m a)
+    {k : Nat} (hk : 1 < k) :
+    (m.capacity ≠ 0 → HasEmpty m) ∧
+    (∃ m', get m ep k = .ok (a k, m') ∧ WInv ep m' ∧ Repr m' a) ∧
     (∀ v, ∃ m', insert m ep k v = .ok m' ∧ WInv ep m' ∧ Repr m' (fun x => if x = k then some v else a x)) ∧
     (m.capacity ≠ 0 → ∃ m', remove m ep k = .ok (a k, m') ∧ WInv ep m' ∧
-        Repr m' (fun x => if x = k then none else a x) ∧ HasEmpty m') := by
-  have hE : m.capacity = 0 ∨ HasEmpty m := by
-    rcases hroom with h | h
-    · exact Or.inl h
-    · exact Or.inr (hasEmpty_of_counts hI.len hI.cnt h)
+        Repr m' (fun x => if x = k then none else a x) ∧ m'.capacity ≠ 0) := by
   have hopt : ∀ r : Option Nat, (∀ v, r = some v ↔ Lookup m k v) → r = a k := by
     intro r hr
     cases hak : a k with
@@ -55,12 +50,12 @@ theorem hmap_refines_partial {ep : Nat} {m : Map} {a : Nat → Option Nat} (hI :
       | none => rfl
       | some v => have := (hR k v hk).mpr ((hr v).mp rfl); rw [hak] at this; cases this
     | some v => exact (hr v).mpr ((hR k v hk).mp hak)
-  refine ⟨?_, ?_, ?_⟩
-  · obtain ⟨r, m', h1, hr, hw, hlk, he⟩ := get_spec hI hE hk
+  refine ⟨winv_hasEmpty hI, ?_, ?_, ?_⟩
+  · obtain ⟨r, m', h1, hr, hw, hlk⟩ := get_spec hI hk
     rw [hopt r hr] at h1
-    exact ⟨m', h1, hw, fun k' v' hk' => by rw [hR k' v' hk', hlk], he⟩
+    exact ⟨m', h1, hw, fun k' v' hk' => by rw [hR k' v' hk', hlk]⟩
   · intro v
-    obtain ⟨m', h1, hw, hlk⟩ := insert_spec hI hE v hk
+    obtain ⟨m', h1, hw, hlk⟩ := insert_spec hI v hk
     refine ⟨m', h1, hw, ?_⟩
     intro k' v' hk'
     rw [hlk]
@@ -70,69 +65,43 @@ theorem hmap_refines_partial {ep : Nat} {m : Map} {a : Nat → Option Nat} (hI :
       · intro h; exact h.symm
     · simp [hkk]; exact hR k' v' hk'
   · intro hcap
-    have hE' : HasEmpty m := by rcases hE with h | h; exact absurd h hcap; exact h
-    obtain ⟨r, m', h1, hr, hw, hlk, _, he⟩ := remove_spec hI hcap hE' hk
+    obtain ⟨r, m', h1, hr, hw, hlk, hc'⟩ := remove_spec hI hcap hk
     rw [hopt r hr] at h1
-    refine ⟨m', h1, hw, ?_, he⟩
+    refine ⟨m', h1, hw, ?_, hc'⟩
     intro k' v' hk'
     rw [hlk]
     by_cases hkk : k' = k
     · subst hkk; simp
     · simp [hkk]; exact hR k' v' hk'
 
-/-- hypotheses of `hmap_refines_partial` are satisfiable, and chaining it from the fresh table works:
+/-- hypotheses of `hmap_refines` are satisfiable, and chaining it from the fresh table works:
 after `insert 16 ↦ 7` the table represents `{16 ↦ 7}` and satisfies `WInv` -/
 example : ∃ m', insert new 0 16 7 = .ok m' ∧ WInv 0 m' ∧ Repr m' (fun x => if x = 16 then some 7 else none) :=
-  (hmap_refines_partial (winv_new 0) (a := fun _ => none)
-    repr_new (Or.inl rfl) (by decide)).2.1 7
+  (hmap_refines (winv_new 0) (a := fun _ => none) repr_new (by decide)).2.2.1 7
 
-/-- 8 inserts of 16-aligned addresses, 4 removes, 8 inserts of addresses ≡ 8 (mod 16): the DESIGN §8 sequence -/
+/-- 8 inserts of 16-aligned addresses, 4 removes, 8 inserts of addresses ≡ 8 (mod 16): the sequence of DESIGN §8
+that used to fill a 16-slot table with 12 live entries and 4 tombstones (no EMPTY slot; `get`, `insert` and
+`remove` of an absent key then never returned) while `overflow()` ignored tombstones. -/
 def witnessOps : List Op :=
   ((List.range 8).map fun i => Op.ins (16 * (i + 1)) (i + 1)) ++
   [Op.rem 16, Op.rem 48, Op.rem 80, Op.rem 112] ++
   ((List.range 8).map fun i => Op.ins (16 * (i + 1) + 8) (i + 11))
 
-def isDiverge {α : Type} : Except Err α → Bool
-  | .error .diverge => true
-  | _ => false
+/-- [capacity, entries, deleted, tombstones, EMPTY slots, `get absent` (0 = none, 1 = some, 2 = error)] at the end of a run -/
+def runSummary : Except Err (Map × Nat) → Nat → List Nat
+  | .ok (m, ep), absent => [m.capacity, m.entries, m.deleted, tombstones m, empties m,
+      (match get m ep absent with | .ok (none, _) => 0 | .ok (some _, _) => 1 | .error _ => 2)]
+  | .error _, _ => []
 
-/-- the negation of "`Inv` is preserved" by a concrete run of the model (replayed against the real
-`ObjectHashMap` by the check: `corpus/C09/hmap-tombstones-fill-table.req`): starting from the fresh table, 20
-operations with valid, distinct, 8-aligned keys — every intermediate table has an EMPTY slot and room — lead to
-a table of capacity 16 with 12 live entries and 4 tombstones, i.e. WITHOUT any EMPTY slot; on it `get` and
-`remove` of an absent key do not terminate (and `wakeup()` does exactly such a `get` while holding the
-wait-table lock).  `overflow()` counts live entries only (12 + 1 > 16 − 4 is false), so nothing rehashes. -/
-theorem hmap_inv_not_preserved :
-    ∃ m ep, run new 0 witnessOps = .ok (m, ep) ∧ m.capacity = 16 ∧ m.entries = 12 ∧ tombstones m = 4 ∧
-      ¬ HasEmpty m ∧ get m ep 160 = .error .diverge ∧ remove m ep 160 = .error .diverge := by
-  have key : (match run new 0 witnessOps with
-      | .ok (m, ep) => m.capacity == 16 && m.entries == 12 && tombstones m == 4 && empties m == 0 &&
-          isDiverge (get m ep 160) && isDiverge (remove m ep 160)
-      | .error _ => false) = true := by decide
-  cases hrun : run new 0 witnessOps with
-  | error e => rw [hrun] at key; cases key
-  | ok p =>
-    obtain ⟨m, ep⟩ := p
-    rw [hrun] at key
-    simp only [Bool.and_eq_true, beq_iff_eq] at key
-    obtain ⟨⟨⟨⟨⟨h1, h2⟩, h3⟩, h4⟩, h5⟩, h6⟩ := key
-    refine ⟨m, ep, rfl, h1, h2, h3, ?_, ?_, ?_⟩
-    · rintro ⟨i, e, he, h0⟩
-      unfold empties at h4
-      have := (List.countP_eq_zero.mp h4) e (List.mem_of_getElem? he)
-      simp [h0] at this
-    · cases hg : get m ep 160 with
-      | ok x => rw [hg] at h5; cases h5
-      | error x => rw [hg] at h5; cases x <;> first | rfl | cases h5
-    · cases hg : remove m ep 160 with
-      | ok x => rw [hg] at h6; cases h6
-      | error x => rw [hg] at h6; cases x <;> first | rfl | cases h6
+/-- regression (corpus/C09/hmap-tombstones-fill-table.req is the same sequence against the real table): with
+tombstones counted, the 13th insert rehashes; the run ends with capacity 16, 12 live entries, no tombstone,
+4 EMPTY slots, and `get` of an absent key answers `none`. -/
+example : runSummary (run new 0 witnessOps) 160 = [16, 12, 0, 0, 4, 0] := by decide
 
 /-- "collections move the mutex and condition objects while threads are queued on them": a moving collection
 rewrites the live keys in place through an injective address map `f` (and the runtime's epoch advances).  The
-table then represents the re-keyed abstract map and satisfies the invariant for the new epoch, so by
-`hmap_refines_partial` the next `get / insert / remove` (which rehashes first) answers for the NEW addresses;
-an EMPTY slot stays EMPTY. -/
+table then represents the re-keyed abstract map and satisfies the invariant for the new epoch, so by `hmap_refines` the
+next `get / insert / remove` (which rehashes first) answers for the NEW addresses. -/
 theorem hmap_relocation {ep ep' : Nat} {m : Map} (hI : WInv ep m) (hep : m.gcEpoch ≠ ep') (f : Nat → Nat)
     (hinj : ∀ k k' v v', Lookup m k v → Lookup m k' v' → f k = f k' → k = k')
     (hpos : ∀ k v, Lookup m k v → 1 < f k) :
@@ -142,8 +111,8 @@ theorem hmap_relocation {ep ep' : Nat} {m : Map} (hI : WInv ep m) (hep : m.gcEpo
 
 /-- non-vacuity: the table `{16 ↦ 7}` built under epoch 0, moved by `f k = k + 1024`, looked at under epoch 1 -/
 example : ∃ m, WInv 0 m ∧ m.gcEpoch ≠ 1 ∧ Lookup m 16 7 := by
-  obtain ⟨m', h1, hw, hr⟩ := (hmap_refines_partial (winv_new 0) (a := fun _ => none)
-    repr_new (Or.inl rfl) (show 1 < 16 by decide)).2.1 7
+  obtain ⟨m', h1, hw, hr⟩ := (hmap_refines (winv_new 0) (a := fun _ => none)
+    repr_new (show 1 < 16 by decide)).2.2.1 7
   refine ⟨m', hw, ?_, (hr 16 7 (by decide)).mp (by simp)⟩
   have : (insert new 0 16 7).toOption.map (·.gcEpoch) = some 0 := by decide
   rw [h1] at this; simp [Except.toOption] at this; omega
@@ -238,6 +207,22 @@ theorem condition_waiters_cover_queue (hr : Reach n s) (hnp : ∀ (t : Nat) (b :
     obtain ⟨t, ht⟩ := List.getElem?_of_mem hmem
     exact Or.inr ⟨t, pc, ht, hp⟩
 
+/-- no lost SIGNAL (invariant S of DESIGN A.3), the second half of "a thread that waits … is woken by a
+notification": `remove_from_waitlist` clears the thread's `blocking` flag and only then calls
+`cv_blocking.notify_one()`, while `DoraThread::block` re-reads the flag under the same mutex each time before it
+waits.  In every reachable state a thread that is asleep in `cv_blocking.wait` although its flag has been cleared
+(it was popped by `wakeup` / `wakeup_all`) still has the popper's `notify_one` on its condvar pending
+(`wk2 … u`), so it will be woken; and a flag value read under `B_t` is the current one.  Together with
+`condition_waiters_cover_queue` and the FIFO pop of `wk1` this is the condition's no-lost-wake-up chain:
+queued ⇒ seen by the notifier ⇒ popped and flagged ⇒ signalled.
+NOT proved: the mutex analogue J (a queued locker is always covered by a contended word, a pending notifier
+or an awake slow-path thread) and the queue/flag consistency Q — evaluated on every visited state only. -/
+theorem no_lost_signal (hr : Reach n s) :
+    (∀ (u : Nat) (k : Kind), s.pcs[u]? = some (PC.sleeping k) → s.b[u]? = some false →
+        ∃ (t : Nat) (k' : Kind) (a : Bool) (r : Ret), s.pcs[t]? = some (PC.wk2 k' a r u)) ∧
+    (∀ (u : Nat) (k : Kind) (f : Bool), s.pcs[u]? = some (PC.blk1 k f) → s.b[u]? = some f) :=
+  ⟨hr.sinv.sig, hr.sinv.flag⟩
+
 /-! ### non-vacuity: a concrete run of the model (two threads contend for the mutex; the loser queues,
 sleeps, is popped and signalled by the owner's `unlock_op`, and acquires with `0→2`) -/
 
@@ -268,6 +253,17 @@ example : ∃ s, Reach 2 s ∧ s.pcs = [.crit, .sleeping .mtx] ∧ s.q = [1] ∧
 def joinTrace : List Event := [
   ⟨1, .call .stop⟩, ⟨1, .lockJ 1⟩, ⟨1, .naJ 0⟩, ⟨1, .unlockJ 1⟩,
   ⟨0, .call (.join 1)⟩, ⟨0, .casS⟩, ⟨0, .lockJ 1⟩ ]
+
+/-- hypothesis of `no_lost_signal` on a reachable state: after 18 events of `demoTrace` thread 1 is asleep, its
+flag has just been cleared by thread 0's `wakeup`, whose `notify_one` is still pending -/
+example : ∃ s, Reach 2 s ∧ s.pcs = [PC.wk2 .mtx false .idle 1, PC.sleeping .mtx] ∧ s.b = [false, false] := by
+  cases h : runTrace (init 2) (demoTrace.take 18) with
+  | none => exact absurd h (by decide)
+  | some s =>
+    have : (runTrace (init 2) (demoTrace.take 18)).map (fun s => (s.pcs, s.b)) =
+        some ([PC.wk2 .mtx false .idle 1, PC.sleeping .mtx], [false, false]) := by decide
+    rw [h] at this; simp at this
+    exact ⟨s, Reach.init.run _ h, this.1, this.2⟩
 
 /-- hypothesis of `join_after_stop` on a reachable state: thread 0 joins thread 1 after it stopped -/
 example : ∃ s, Reach 2 s ∧ s.pcs[0]? = some (PC.jn1 .idle 1 false) := by
